@@ -68,4 +68,7 @@ ChildrenSmaller == \A p \in DOMAIN tree : p # <<>> =>
 DepthBound == \A p \in DOMAIN tree : Len(p) <= Len(boxes)
 (* pruned recursive query = brute force, for every query box of the lattice *)
 QueryEqualsHits == Built => \A c \in QCodes : ValidQ(c) => QueryTree(<<>>, QOf(c)) = Hits(boxes, QOf(c))
+(* ---- liveness: construction terminates (C14: "and construction terminates") - the work list empties ---- *)
+FairSpec == Spec /\ WF_vars(Split)
+ConstructionTerminates == <>(todo = <<>>)
 =============================================================================
